@@ -10,6 +10,16 @@ E3 = "E3 cooperative scheduler + preemption-bounded DFS (harness/vsched, harness
 
 # id -> (level, engine, technique, text, note, design_ref)
 CHECKS = {
+    "C13": ("exploration", E2,
+            "bounded-exhaustive enumeration of values, value trees, field-checker subsets and compound-key lists; write in one committed transaction, read back in a later one",
+            "Every typed setter/getter pair over boundary values (integer extremes, signed zero, infinities, NaN, denormals, NUL-containing and 64 KiB strings, times in several zones incl. year 1/9999), all string lists up to 3 over {\"\",a,b,dup}, ALL value trees up to depth 2 (thorough: 3) over 8 leaf kinds with up to 2 children (nulls, empty maps/lists inside containers), all 16 field-checker subsets (untouched fields byte-identical) and all compound-key lists up to 3 over 8 element shapes with an exhaustive collision table.",
+            "The reserved list-size key and empty map keys (rejected loudly by bbolt) are outside the alphabet.",
+            "DESIGN.md §4 C13"),
+    "C14": ("exploration", E2,
+            "exhaustive enumeration of element sets x cursor kinds x Next/Seek scripts against a sorted-slice reference cursor",
+            "For every subset of {\"\",a,a\\x00,ab,b} (incl. the empty set) every cursor kind obtainable through the exported API (46 kinds: forward/reverse raw and typed bucket cursors, index value/key cursors, related-entity, link, ref-counted link, set-symbol runtime, stacked, IterateIds/IterateValidIds, IteratorMatchingAllOf/AnyOf with 0/1/2 values, filtered, tree, union, empty) is driven by ALL scripts of up to 3 (thorough: 4) steps over {Next, Seek(v) for 8 targets}; validity and Current() bytes are compared with the reference after every step and the cursor is then drained.",
+            "Next() on an exhausted cursor is outside the alphabet; the set-symbol runtime cursor is positioned through SeekToString.",
+            "DESIGN.md §4 C14"),
     "C10": ("exploration", E2,
             "bounded-exhaustive enumeration of token sequences, short byte strings, operand-type mixes and token mutations; oracle = no panic + independent grammar recogniser + evaluation on three datasets",
             "ALL token sequences up to length 3 (thorough: 4) over 44 lexemes (one or two per token class, identifiers of every symbol kind, three unrecognised characters) with and without blanks, all byte strings up to length 3 over 44 bytes, every symbol-kind x operator x literal-type mix, and single-token mutations of valid sentences are parsed; nothing may panic, everything accepted must be a sentence of ZitiQl.g4 according to an independently written recogniser (so unrecognised characters are never silently dropped) and must evaluate on an empty store, an all-null entity and a populated store without panicking; parse sequences over pooled lexer/parser instances must not leak state.",
